@@ -63,6 +63,45 @@ def model_ord(s, ctx, R2L, NEUT):
     return ordv
 
 
+def long_runs(s, ctx, R2L, NEUT, limit=256):
+    """the opposite-direction runs of more than `limit` characters (the matcher's recursion depth), as (first, last) pairs"""
+    body = s[:-1] if s.endswith('\n') else s
+    n = len(body)
+    out = []
+    i = 0
+    while i < n:
+        if ctx > 0 and body[i] in R2L:
+            j = i
+            while j + 1 < n and (body[j + 1] in R2L or body[j + 1] in NEUT):
+                j += 1
+            while j > i and body[j] not in R2L:
+                j -= 1
+        elif ctx <= 0 and body[i] in LATIN:
+            j = i
+            while j + 1 < n and body[j + 1] not in R2L:
+                j += 1
+            while j > i and body[j] not in LATIN:
+                j -= 1
+        else:
+            i += 1
+            continue
+        if j - i + 1 > limit:
+            out.append((i, j))
+        i = j + 1
+    return out
+
+
+def reversed_in_pieces(ordv, a, b, limit=256):
+    """ordv[a..b] is a sequence of consecutive pieces, each of at most `limit` characters and each reversed in place"""
+    k = a
+    while k <= b:
+        q = ordv[k]
+        if q < k or q > b or q - k + 1 > limit or any(ordv[k + t] != q - t for t in range(q - k + 1)):
+            return False
+        k = q + 1
+    return True
+
+
 _MARKS = None
 
 
@@ -153,6 +192,7 @@ def check_dir(args):
         # a run of >= 2 Latin word characters reads left-to-right on screen, a run of >= 2 Arabic
         # letters right-to-left (screen order = ord in a left-to-right line, mirrored otherwise)
         lawbad = False
+        lspans = long_runs(s, ctx, R2L, NEUT)
         for cls, want, name in ((LATIN - {'_'}, +1, 'latin'), (ARLETTERS, -1, 'arabic')):   # '_' is also a neutral in conf.h
             if name == 'arabic' and ('$' in s or '\\' in s):
                 continue        # $...$ and \cmd spans are configured as opaque left-to-right islands
@@ -164,7 +204,9 @@ def check_dir(args):
                         j += 1
                     if j > i:
                         steps = {(ordv[k + 1] - ordv[k]) * (1 if ctx > 0 else -1) for k in range(i, j)}
-                        if steps != {want} and not lawbad:
+                        if steps != {want} and not lawbad and any(a <= i and j <= b for a, b in lspans):
+                            pass        # a word across the seam of a run longer than 256: decided below as the recorded finding, or as dir:runs
+                        elif steps != {want} and not lawbad:
                             lawbad = True
                             bad.append(('dir:word-direction', 'line %r td=%d ctx=%d: %s run [%d..%d] does not read %s on screen: ord=%s' % (
                                 s, td, ctx, name, i, j, 'left-to-right' if want > 0 else 'right-to-left', ordv), wit))
@@ -189,6 +231,16 @@ def check_dir(args):
         if exp != list(range(n)):
             nontriv += 1
         if ordv != exp:
+            # a run longer than the matcher's recursion depth (256) is matched, and so reversed, piecewise: identified as exactly that --
+            # everything outside such runs in place, every such run still occupying its own cells -- it is the recorded finding
+            spans = long_runs(s, ctx, R2L, NEUT)
+            inside = set()
+            for a, b in spans:
+                inside.update(range(a, b + 1))
+            if spans and all(ordv[k] == exp[k] for k in range(n) if k not in inside) and all(reversed_in_pieces(ordv, a, b) for a, b in spans):
+                bad.append(('dir:run-longer-than-256-split', 'line of %d characters with a run of %d td=%d ctx=%d: the run is reversed in pieces of at most 256 characters' % (
+                    n, max(b - a + 1 for a, b in spans), td, ctx), wit))
+                continue
             bad.append(('dir:runs', 'line %r td=%d ctx=%d: ord=%s expected %s' % (s, td, ctx, ordv, exp), wit))
     rep = common.san_report(r)
     if rep:
@@ -221,7 +273,7 @@ def check_layout_order(args):
             continue
         pos = g['pos'][:n]
         vis = sorted(range(n), key=lambda i: (pos[i], i))
-        applies = order == 2 or (order == 1 and any(ord(c) > 127 for c in s))
+        applies = n <= 256 and (order == 2 or (order == 1 and any(ord(c) > 127 for c in s)))     # lim is left at its default of 256 here
         ctx = model_ctx(s, td, R2L)
         exp = model_ord(s, ctx, R2L, NEUT) if applies else list(range(n))
         if exp is None:
@@ -363,6 +415,11 @@ def run(tier, V):
     for _ in range(nrand):
         L = R.choice([R.randint(6, 16), R.randint(16, 60), R.randint(250, 262)])
         lines.append(''.join(R.choice(pool) for _ in range(L)) + '\n')
+    # runs around and beyond the matcher's recursion depth of 256 (reachable on screen only when the lim option is raised)
+    for L in (200, 255, 256, 257, 258, 300, 513, 600):
+        lines.append('ab ' + 'ب' * L + ' cd\n')
+        lines.append('ab ' + ''.join(R.choice(['سلام', 'من', ' ', '، ', 'ب']) for _ in range(L)).strip(' ،')[:L].rstrip(' ،') + ' cd\n')
+        lines.append('ب ' + ''.join(R.choice(['abc', 'x1', ' ', ', ', 'a']) for _ in range(L)).strip(' ,')[:L].rstrip(' ,') + ' ب\n')
     # the configured mark patterns, nested
     words = ['abc', 'de', 'x1_y', 'سلام', 'عربي', 'من', 'ب', 'a', ' ', ' ', '-', '، ', '(', ')']
     for _ in range(600 if tier == 'quick' else 6000):
